@@ -131,29 +131,33 @@ BUILT = {
             'DESIGN.md 3/C12'),
     'C13': ('harness-owned deterministic thread scheduler (sys.settrace line events) with enumerated preemption-bounded and hypothesis-drawn schedules; hypothesis histories around the LRU capacity; reference-evaluator oracle',
             'Threads compiling and evaluating distinct fresh filters are interleaved at source-line granularity inside '
-            'hszinc/grid_filter.py by a scheduler whose schedule is data: all 2-thread schedules with <= 4 (quick) / 5 '
-            '(thorough) switches and all 3-thread schedules with <= 3 / 4 are enumerated, more are drawn by Hypothesis; every '
+            'hszinc/grid_filter.py and Grid.reindex / Grid.filter by a scheduler whose schedule is data: all 2-thread schedules with '
+            '<= 4 switches (quick: ~17 yield points per thread, 5,238 schedules; thorough: ~37, 50,025) and all 3-thread schedules '
+            'with <= 3 are enumerated, more are drawn by Hypothesis; every '
             'thread must get its own filter\'s rows, also on re-evaluation. Histories of evaluate/re-evaluate/call-held-function/'
-            'gc over filter pools are run against an lru_cache(8) re-wrap and the real capacity 500 (1,300 filters).',
+            'gc/row replacement over filter pools (11 kinds of filters incl. a->b paths, bool/date/quantity/date-time/Ref literals, '
+            'same-token pairs, literal-only pairs, a hot filter) are run against an lru_cache(8) re-wrap and the real capacity 500 '
+            '(1,700 filters).',
             'Line granularity; C-level operations are atomic under the GIL.',
             'DESIGN.md 3/C13'),
     'C14': ('exhaustive small-scope enumeration of operation histories + hypothesis histories, lock-step with a Python list model',
-            'Every history of up to 4 (quick) / 5 (thorough) operations over a 27-op alphabet (append, insert, extend, +=, item '
-            'assignment, del by index and slice, pop, remove, reverse, clear, continue-on-slice, refused non-dict rows and '
-            'out-of-range indices) from three initial grids is applied to a Grid and to a list of the same row objects; outcomes '
+            'Every history of up to 3 (quick) / 4 (thorough) operations over a ~45-op alphabet (append, insert, extend and += incl. '
+            'one-shot iterables, item assignment, del by index and slice incl. negative steps, pop, remove incl. near-equal rows, '
+            'reverse, clear, continue-on-slice, refused non-dict rows, out-of-range indices, 3.0 values under a 2.0 label) from four '
+            'initial grids (declared 3.0 / 2.0, auto-promoted, unlabelled) is applied to a Grid and to a list of the same row objects; outcomes '
             'per step and len/iteration/indexing/slicing/membership/count/index afterwards must agree. Hypothesis adds 50-step '
             'histories observed after every step.',
             'Trusts the Python list as the reference; rows hold scalars only.',
             'DESIGN.md 3/C14'),
     'C15': ('exhaustive small-scope enumeration of operation histories + hypothesis histories, scan-based id model',
-            'Same histories as C14 over rows with str/int/Ref ids, duplicate ids, ids with equal string forms, rows without id, '
-            'slice- and filter-derived grids; afterwards grid[key] and grid.get(key, default) for ten str/Ref keys must return a '
+            'Same histories as C14 (quick: one initial grid to depth 4) over rows with str/int/Ref ids, duplicate and falsy ids, ids '
+            'with equal string forms, rows without id, read-modify-write of a row, slice- and filter-derived grids and their sources; afterwards grid[key] and grid.get(key, default) for ten str/Ref keys must return a '
             'row currently in the grid with that id string, or KeyError/default iff none has it.',
             'With duplicate ids any current matching row is accepted.',
             'DESIGN.md 3/C15'),
     'C16': ('exhaustive small-scope enumeration of operation histories + hypothesis histories against a reference ordered-map model',
-            'All histories up to depth 3 over 3-4 keys and every position argument from six initial maps, for SortableDict and '
-            'MetadataObject, are replayed on the real object and on a list-of-pairs model of the documented semantics; '
+            'All histories up to depth 3 over 3-4 keys and every position argument from six initial maps, for SortableDict, '
+            'MetadataObject and a MetadataObject with a refusing value validator, are replayed on the real object and on a list-of-pairs model of the documented semantics; '
             'outcomes, items(), at/value_at/index, uniqueness and "rejected op changes nothing" are compared; Hypothesis adds '
             '40-step histories incl. extend/pop/setdefault/clear and checks the order seen by the ZINC/JSON writers.',
             'Model semantics for relocation by numeric index follow the implementation (doc-string silent).',
